@@ -23,7 +23,11 @@ Section Replay.
         | HbHarvest _ :: _ =>
             [n2n (match mt s with Some m => List.length (mres m) | None => 0 end);
              b2n (match cs s' with DontClear => true | _ => false end)]
-        | HbReadC _ :: _ => [b2n (consumed s)]
+        | HbReadC r :: _ =>
+            (* also whether the refresh timer is (re-)armed at the end of this heartbeat *)
+            let processed := r && consumed s in
+            let restart := negb processed && match mt s with None => true | Some _ => false end in
+            [b2n (consumed s); b2n (restart || match mt s with Some _ => true | None => false end || negb processed)]
         | Restart :: _ =>
             if rdone s then [1%N] else [0%N; n2n (List.length (rbuf s)); n2n (List.length (pl s'))]
         | S1ReadC :: _ => [b2n (consumed s)]
